@@ -71,9 +71,10 @@ ASSUMPTIONS = [
 REQUIRED = ['indiv', 'hier', 'filter', 'kind:gauss', 'kind:lognorm', 'kind:trunc', 'kind:pooled', 'kind:hetero',
             'noncentered', 'cov', 'cov_pooled', 'red', 'comp', 'bare', 'ids:unsorted', 'ids:default', 'stat',
             'tight', 'wide', 'chains=1', 'draws=1', 'n_ids=1', 'param_map_swap', 'second_individual',
-            'e2e:optimisation:broken_run', 'n_runs>default:two_steps', 'one_parameter']
+            'e2e:optimisation:broken_run', 'n_runs>default:two_steps', 'one_parameter', 'ids:numeric_strings']
 
 UNSORTED_IDS = ['id-e', 'id-b', 'id-d', 'id-a', 'id-c']
+NUMERIC_STRING_IDS = ['007', '010', '1.0', '1e2', '+5']
 SAMPLERS = {'haario': 'HaarioBardenetACMC', 'metropolis': 'MetropolisRandomWalkMCMC'}
 OPTIMISERS = {'cmaes': 'CMAES', 'neldermead': 'NelderMead', 'xnes': 'XNES'}
 
@@ -229,16 +230,19 @@ def _spec(draw):
         params = llbuild.draw_ll_params(draw, ll)
         rls = ['any'] * ll['n_par'] + ['scale'] * sum(llbuild.ll_n_sigma(ll))
         spec.update(ll=ll, theta0=params, prior=draw_prior(draw, rls, params, tight),
-                    ident=draw(st.sampled_from([None, '7', 'mouse b'])))
+                    ident=draw(st.sampled_from([None, '7', 'mouse b', '007', '1e2'])))
         return spec
     if kind == 'hier':
         h = hbuild.draw_hier(draw, with_prior=False, p_nested=0.15)
         n_ids = h['n_ids']
-        style = draw(st.sampled_from(['default', 'sorted', 'unsorted', 'unsorted']))
+        style = draw(st.sampled_from(['default', 'sorted', 'unsorted', 'unsorted', 'numeric_strings']))
         if style == 'default':
             h['ids'] = None
         elif style == 'sorted':
             h['ids'] = [str(10 * (i + 1)) for i in range(n_ids)]
+        elif style == 'numeric_strings':
+            # labels that look like numbers but are no canonical integers stay what they are
+            h['ids'] = list(draw(st.permutations(NUMERIC_STRING_IDS)))[:n_ids]
         else:
             h['ids'] = list(draw(st.permutations(UNSORTED_IDS)))[:n_ids]
         nb = ref.hier_layout(h['pop'], n_ids)[0]
@@ -858,6 +862,23 @@ def _run_sampling(case, s, ctrl, L, x0):
         case.close(captured[0][:, 0, :], x0, rtol=0, atol=0,
                    what='first draw of every chain vs sample_initial_parameters(n_runs, seed of the controller)')
     check_dataset(case, 'run', ds, captured[0], L, False)
+    # the controller is run a second time (e.g. with another number of iterations): it starts from the same initial points
+    # of its seed again, not from where the first run ended
+    captured2 = []
+
+    def wrapped2(self, *a, **k):
+        out = orig(self, *a, **k)
+        captured2.append(np.array(out, dtype=float, copy=True))
+        return out
+    pints.MCMCController.run = wrapped2
+    try:
+        with case.clause('run_start_second_run'):
+            ctrl.run(n_iterations=2)
+            case.equal(len(captured2), 1, 'number of pints.MCMCController.run calls of the second run')
+            case.close(captured2[0][:, 0, :], x0, rtol=0, atol=0,
+                       what='first draw of every chain of a SECOND run vs sample_initial_parameters(n_runs, seed)')
+    finally:
+        pints.MCMCController.run = orig
 
 
 def _run_optimisation(case, s, P, L):
